@@ -172,8 +172,6 @@ Proof.
 Qed.
 
 (** remaining work never increases, never becomes negative (values of remains_ after each FULL step) *)
-Fixpoint nonincr (prev : Q) (l : list Q) : Prop :=
-  match l with [] => True | x :: l' => x <= prev /\ 0 <= x /\ nonincr x l' end.
 
 Lemma full_rems_nonincr : forall h rem, wf h -> 0 < rem -> nonincr rem (full_rems 0 rem h).
 Proof.
@@ -239,7 +237,7 @@ Proof.
     assert (Ep : Qltb 0 (l_rem st) = true) by (apply Qltb_true; assumption). rewrite Ep.
     rewrite dupd0_pos by lra. cbn [l_rem l_lu l_lv l_heap].
     split; [| split; [reflexivity | split]].
-    + unfold linv. cbn [l_rem l_lu l_lv l_heap]. repeat split; try lra. apply Qle_refl.
+    + unfold linv. cbn [l_rem l_lu l_lv l_heap]. repeat split; try lra; try reflexivity; try apply Qle_refl.
     + intro Hr0. unfold lazy_date. assert (E1 : Qltb 0 (sr s) = true) by (apply Qltb_true; assumption). rewrite E1.
       assert (E2 : Qltb 0 (l_rem st - l_lv st * (now - l_lu st)) = true) by (apply Qltb_true; lra). rewrite E2.
       eexists. split; [reflexivity |]. rewrite <- Hrel. reflexivity.
@@ -336,17 +334,15 @@ Theorem sleep_lazy_eq_full : forall steps t0 md, Forall (fun d => 0 <= d) steps 
 Proof. intros. apply sleep_eq_gen; try assumption. reflexivity. Qed.
 
 (** ------------------------------------------------------------------------------------------------ oracle soundness *)
-Fixpoint tol_sum (tol : Q) (l : list sample) : Q := match l with [] => 0 | _ :: l' => tol + tol_sum tol l' end.
 
 Lemma trace_ok_sound : forall l tol prev, trace_ok tol prev l = true ->
   nonincr prev (rems_of l) /\ Qabs (prev - last_rem prev l - work_sum l) <= tol_sum tol l.
 Proof.
   induction l as [| s l' IH]; intros tol prev H.
-  - cbn. split; [exact I |]. assert (Hz : prev - prev - 0 == 0) by ring. rewrite Hz. cbn. apply Qle_refl.
+  - cbn [rems_of nonincr last_rem work_sum tol_sum]. split; [exact I |]. apply Qabs_Qle_condition. split; lra.
   - cbn [trace_ok] in H. repeat rewrite andb_true_iff in H. destruct H as ((((H1 & H2) & H3) & H4) & H5).
     apply Qle_bool_iff in H1. apply Qle_bool_iff in H2. apply Qle_bool_iff in H4.
     destruct (IH _ _ H5) as [Hn Hw]. cbn [rems_of nonincr last_rem work_sum tol_sum]. split; [auto |].
-    assert (Hz : prev - last_rem (s_rem s) l' - (s_rate s * s_dt s + work_sum l') ==
-                 (prev - s_rem s - s_rate s * s_dt s) + (s_rem s - last_rem (s_rem s) l' - work_sum l')) by ring.
-    rewrite Hz. eapply Qle_trans; [apply Qabs_triangle |]. lra.
+    apply Qabs_Qle_condition in H4. apply Qabs_Qle_condition in Hw. apply Qabs_Qle_condition.
+    destruct H4 as [H4a H4b]. destruct Hw as [Hwa Hwb]. split; lra.
 Qed.
